@@ -304,6 +304,27 @@ def pristine_request(req):
         raise T.MachineryError("pristine reference server failed: %r" % (e,))
 
 
+def event_light(f, fobj, tokens, lenient, parser, form="argv"):
+    """the part of an event that the comparison with a TLC-generated behaviour needs (outcome on the given parser, on a
+    fresh one, inputs untouched); the full event is built only for the sequences that go to the trace module"""
+    from clikit.args import DefaultArgsParser
+
+    toks = ["".join(t) for t in tokens]
+    before = listing(fobj)
+    raw, pair = make_raw(toks, form)
+    argv, argv0 = pair if pair is not None else (None, None)
+    tok0 = list(raw.tokens)
+    try:
+        parsed = guarded(parser.parse, raw, fobj, lenient, what=(f, list(toks), lenient, form))
+        res, _extra = project_args(f, parsed)
+        err = "none"
+    except Exception as e:  # noqa
+        err, res = ERR.get(type(e).__name__, "EXC:" + type(e).__name__), dict(NORES)
+    untouched = argv == argv0 and list(raw.tokens) == tok0 and listing(fobj) == before
+    ferr, fres, _ = parse_once(DefaultArgsParser(), fobj, f, toks, lenient)
+    return {"obs": {"err": err, "result": res}, "fresh": {"err": ferr, "result": fres}, "untouched": untouched}
+
+
 def event(f, fobj, tokens, lenient, parser=None, mut=None, recipe=None, form="argv", keep=True):
     """one request for ArgsParserTrace: observed on `parser` (fresh if None), on a fresh parser, in the other mode;
     also whether argv list / raw tokens / format listings survived the call untouched"""
